@@ -143,7 +143,7 @@ func runSelftestReal(args []string) int {
 		}
 		for i := 0; i < 10; i++ {
 			gr := prng.Stream(seed, "selftest", "gen", i)
-			jobs = append(jobs, &heapJob{Prog: genOwnProgram(gr, i, true), Cfg: allCfgs()[gr.Intn(6)], Policies: []HeapPolicy{strictPolicy, drawPolicy(gr)}})
+			jobs = append(jobs, &heapJob{Prog: genOwnProgram(gr, i, false), Cfg: allCfgs()[gr.Intn(6)], Policies: []HeapPolicy{strictPolicy, drawPolicy(gr)}})
 		}
 		var hs []string
 		for rep := 0; rep < 3; rep++ {
